@@ -43,7 +43,7 @@ def _case(draw):
         c["bad"] = draw(st.integers(0, len(BAD) - 1))
     if kind == "flow":
         t = draw(zoo.transform_case({"img": False, "regimes": ["fresh", "small"], "umnn": False, "doms": ["R"], "fn_box": False,
-                                     "exclude": ["exp", "tanh", "sigmoid", "cauchycdf", "batchnorm", "actnorm"]}))
+                                     "exclude": ["exp", "tanh", "sigmoid", "cauchycdf", "batchnorm", "actnorm", "logtanh"]}))   # (LogTanh^-1 grows like exp: two of them overflow ordinary noise to inf, then NaN)
         c.update({"shape": t["shape"], "dom": "R", "ctx": t["ctx"], "spec": t["spec"], "init": t["init"]})
         c["base"] = draw(st.sampled_from(["standard", "conditional"]))
     if kind in ("maf", "realnvp"):
